@@ -138,15 +138,17 @@ def run(prop, tier, replay_path=None):
     sd = seed()
     runs = []
     if tier == "quick":
-        for factor in (0, 1, 999):
-            runs.append(("f%d" % factor, [sd % 5], ["--combine", str(factor)]))
+        # two value-class rotations for the compacting modes, one for the mode that never compacts
+        runs.append(("f0", [sd, sd + 1], ["--combine", "0"]))
+        runs.append(("f1", [sd + 2, sd + 3], ["--combine", "1"]))
+        runs.append(("f999", [sd + 1], ["--combine", "999"]))
     else:
         for factor in (0, 1, 999):
-            runs.append(("f%d" % factor, [sd % 5, (sd + 1) % 5, (sd + 2) % 5, (sd + 3) % 5, (sd + 4) % 5], ["--combine", str(factor)]))
-        runs.append(("f0_io4", [sd % 5], ["--combine", "0", "--io-threads", "4", "--compaction-threads", "4"]))
-        runs.append(("f0_sub1", [(sd + 1) % 5], ["--combine", "0", "--part-bytes", "1"]))
-        runs.append(("f1_nolz4", [(sd + 2) % 5], ["--combine", "1", "--lz4", "0", "--part-bytes", "200"]))
-        runs.append(("f4", [(sd + 3) % 5], ["--combine", "4", "--threads", "1"]))
+            runs.append(("f%d" % factor, [sd + k for k in range(20)][::1][:8], ["--combine", str(factor)]))
+        runs.append(("f0_io4", [sd + 9], ["--combine", "0", "--io-threads", "4", "--compaction-threads", "4"]))
+        runs.append(("f0_sub1", [sd + 10], ["--combine", "0", "--part-bytes", "1"]))
+        runs.append(("f1_nolz4", [sd + 11], ["--combine", "1", "--lz4", "0", "--part-bytes", "200"]))
+        runs.append(("f4", [sd + 12], ["--combine", "4", "--threads", "1"]))
     results = []
     for tag, variants, flags in runs:
         for r in replay(path, prop + "_" + tag, variants, flags):
